@@ -4,6 +4,12 @@
 //	c18 all <out-dir>                 every corpus font x operation x mode x k in 0..len(file)
 //	c18 one <case.json> <out.ndjson>  a single run (replay): summary and per-call events
 //
+// Files read by sfnt.Read: the output of Font.Write for every corpus font (every k); the same
+// tables re-assembled by an independent writer with each table in turn physically last, and with
+// an unknown table of length = 0..3 (mod 4) last; the Go fonts shipped with golang.org/x/image
+// (last table "prep", copied undecoded).  For the variants and the big files k runs over windows
+// around every table boundary and the file end in the quick tier.
+//
 // Operations: Write, WriteTrueTypePDF, WriteOpenTypeCFFPDF, (*cff.Font).Write via AsCFF (destination
 // modes exact | atomic | short) and sfnt.Read (source modes trunc | strunc | failat | sfail).
 package main
@@ -17,7 +23,14 @@ import (
 	"os"
 	"path/filepath"
 	"runtime"
+	"sort"
+	"strings"
 	"sync"
+
+	"golang.org/x/image/font/gofont/gobold"
+	"golang.org/x/image/font/gofont/goitalic"
+	"golang.org/x/image/font/gofont/gomono"
+	"golang.org/x/image/font/gofont/goregular"
 
 	"seehuhn.de/go/sfnt"
 	"seehuhn.de/go/sfnt/glyf"
@@ -107,7 +120,9 @@ func (r *failAt) ReadAt(p []byte, off int64) (int, error) {
 	return bytes.NewReader(r.data).ReadAt(p, off)
 }
 
-// truncAt is the file cut to k bytes, as an io.ReaderAt that counts the accesses hitting the end.
+// truncAt is the file cut to k bytes, as an io.ReaderAt that counts the accesses hitting the end
+// (used for the access-by-access traces; the summary runs hand a *bytes.Reader to sfnt.Read, as
+// callers do: it also has a Size method).
 type truncAt struct {
 	r     *bytes.Reader
 	nacc  int
@@ -163,6 +178,8 @@ type Group struct {
 	Mode     string `json:"mode"`
 	Total    int    `json:"total"`
 	DataEnd  int    `json:"dataEnd"`
+	Variant  string `json:"variant"` // Read: "" | last:<tag> | unk:<r> | go:<name>
+	KSel     string `json:"ksel"`    // all | win
 }
 
 // Case is one run (replay file).
@@ -175,17 +192,64 @@ type Case struct {
 // (physically the last one): a cut inside it loses table data that no decoder will miss.
 func extraTable(fi int, o fonts.Opts) bool { return fi == 3 && o.Kind == "ttf" }
 
+func filler(n, seed int) []byte {
+	data := make([]byte, n)
+	for i := range data {
+		data[i] = byte(200 + seed + i)
+	}
+	return data
+}
+
 func makeFont(fi int, thorough bool) *sfnt.Font {
 	o := fonts.Corpus(thorough)[fi]
 	f := fonts.Make(vio.Rand(int64(7000+fi)), o)
+	if o.Kind == "ttf" {
+		// tables the reader copies without decoding them, lengths = 2, 3, 0, 1 (mod 4)
+		t := f.Outlines.(*glyf.Outlines).Tables
+		t["prep"], t["fpgm"], t["cvt "], t["gasp"] = filler(38, 1), filler(39, 2), filler(40, 3), filler(37, 4)
+	}
 	if extraTable(fi, o) {
-		data := make([]byte, 37)
-		for i := range data {
-			data[i] = byte(200 + i)
-		}
-		f.Outlines.(*glyf.Outlines).Tables["zzzz"] = data
+		f.Outlines.(*glyf.Outlines).Tables["zzzz"] = filler(37, 0)
 	}
 	return f
+}
+
+var goFonts = map[string][]byte{"regular": goregular.TTF, "mono": gomono.TTF, "bold": gobold.TTF, "italic": goitalic.TTF}
+
+// buildFile returns the bytes sfnt.Read is given in group g (before any fault).
+func buildFile(g *Group) []byte {
+	if strings.HasPrefix(g.Variant, "go:") {
+		return goFonts[g.Variant[3:]]
+	}
+	base := intact(makeFont(g.FI, g.Thorough), "Write")
+	if g.Variant == "" {
+		return base
+	}
+	d := sfntwalk.Walk(base)
+	tabs := d.Tables(base)
+	switch {
+	case strings.HasPrefix(g.Variant, "last:"):
+		tag := g.Variant[5:]
+		var res []sfntwalk.Table
+		var last *sfntwalk.Table
+		for i := range tabs {
+			if tabs[i].Tag == tag {
+				last = &tabs[i]
+			} else {
+				res = append(res, tabs[i])
+			}
+		}
+		if last == nil {
+			vio.Fatal("no table " + tag + " in " + g.Name)
+		}
+		return sfntwalk.Assemble(d.Scaler, append(res, *last), true)
+	case strings.HasPrefix(g.Variant, "unk:"):
+		r := int(g.Variant[4] - '0')
+		tabs = append(tabs, sfntwalk.Table{Tag: "zzzx", Data: filler(36+r, r)})
+		return sfntwalk.Assemble(d.Scaler, tabs, r < 2) // r >= 2: the final padding is missing (legal)
+	}
+	vio.Fatal("unknown variant " + g.Variant)
+	return nil
 }
 
 // writeOp runs one writing operation; hasn tells whether the operation reports a byte count.
@@ -254,6 +318,10 @@ func runRead(file []byte, g *Group, k int, detail bool, out *[]ev) {
 	var st *stream
 	switch g.Mode {
 	case "trunc":
+		if !detail {
+			src = bytes.NewReader(file[:k]) // has ReadAt and Size, like the readers callers pass
+			break
+		}
 		ta = &truncAt{r: bytes.NewReader(file[:k]), log: lp}
 		src = struct {
 			io.Reader
@@ -290,7 +358,7 @@ func runRead(file []byte, g *Group, k int, detail bool, out *[]ev) {
 		nacc, nfail = fa.nacc, fa.nfail
 	case ta != nil:
 		nacc, nfail = ta.nacc, ta.nfail
-	default:
+	case st != nil:
 		nacc, nfail = st.nacc, st.nfail
 	}
 	if !detail {
@@ -312,11 +380,49 @@ func detailed(g *Group, k int) bool {
 	if isRead(g.Op) && (g.Mode == "strunc" || g.Mode == "sfail") {
 		return false
 	}
-	return k < 16 || k > g.Total-16 || k%53 == 0
+	return k < 16 || k > g.Total-16 || k%53 == 0 || (isRead(g.Op) && k >= g.DataEnd-4)
+}
+
+// faultPoints lists the k of a group: all of 0..total, or windows around every table boundary.
+func faultPoints(g *Group, file []byte) []int {
+	if g.KSel != "win" {
+		res := make([]int, g.Total+1)
+		for k := range res {
+			res[k] = k
+		}
+		return res
+	}
+	marks := []int{0, 12, g.Total, g.DataEnd}
+	d := sfntwalk.Walk(file)
+	marks = append(marks, 12+16*d.NumTables)
+	for _, r := range d.Recs {
+		end := int(r.Off + r.Len)
+		marks = append(marks, int(r.Off), end, (end+3)&^3)
+	}
+	sel := map[int]bool{}
+	for _, m := range marks {
+		for k := m - 6; k <= m+6; k++ {
+			if k >= 0 && k <= g.Total {
+				sel[k] = true
+			}
+		}
+	}
+	for k := g.Total - 16; k <= g.Total; k++ {
+		if k >= 0 {
+			sel[k] = true
+		}
+	}
+	res := make([]int, 0, len(sel))
+	for k := range sel {
+		res = append(res, k)
+	}
+	sort.Ints(res)
+	return res
 }
 
 func resetEvent(g *Group) ev {
-	return ev{"ev": "reset", "g": g.ID, "font": g.Name, "op": g.Op, "mode": g.Mode, "total": g.Total, "dataEnd": g.DataEnd}
+	return ev{"ev": "reset", "g": g.ID, "font": g.Name, "variant": g.Variant, "op": g.Op, "mode": g.Mode, "total": g.Total,
+		"dataEnd": g.DataEnd}
 }
 
 // intact runs the operation without a fault and returns the bytes produced.
@@ -336,9 +442,17 @@ func intact(f *sfnt.Font, op string) []byte {
 	return buf.Bytes()
 }
 
+var rmodes = []string{"trunc", "strunc", "failat", "sfail"}
+
 func groups(thorough bool) []*Group {
 	var res []*Group
 	wmodes := []string{"exact", "atomic", "short"}
+	addRead := func(fi int, name, variant, ksel string) {
+		for _, m := range rmodes {
+			res = append(res, &Group{ID: len(res) + 1, FI: fi, Thorough: thorough, Name: name, Op: "Read", Mode: m,
+				Variant: variant, KSel: ksel})
+		}
+	}
 	for fi, o := range fonts.Corpus(thorough) {
 		ops := []string{"Write", "Read"}
 		if o.Kind == "ttf" {
@@ -356,20 +470,49 @@ func groups(thorough bool) []*Group {
 				if extraTable(fi, o) {
 					name += "+zzzz"
 				}
-				res = append(res, &Group{ID: len(res) + 1, FI: fi, Thorough: thorough, Name: name, Op: op, Mode: m})
+				res = append(res, &Group{ID: len(res) + 1, FI: fi, Thorough: thorough, Name: name, Op: op, Mode: m, KSel: "all"})
 			}
 		}
+		// the same tables with every table in turn physically last, and with an unknown last table
+		name := o.String()
+		base := intact(makeFont(fi, thorough), "Write")
+		ksel := "win"
+		if thorough && fi < 4 {
+			ksel = "all"
+		}
+		for _, t := range sfntwalk.Walk(base).Tables(base) {
+			addRead(fi, name, "last:"+t.Tag, ksel)
+		}
+		for r := 0; r < 4; r++ {
+			addRead(fi, name, fmt.Sprintf("unk:%d", r), ksel)
+		}
+	}
+	// fonts not written by this library: the physically last table is "prep", copied undecoded
+	gof := []string{"regular", "mono"}
+	if thorough {
+		gof = []string{"regular", "mono", "bold", "italic"}
+	}
+	for i, name := range gof {
+		ksel := "win"
+		if thorough && i == 0 {
+			ksel = "all"
+		}
+		addRead(-1, "go"+name, "go:"+name, ksel)
 	}
 	return res
 }
 
 // measure fills Total and DataEnd from a fault-free run (twice: the output must be reproducible).
 func measure(g *Group) []byte {
-	f := makeFont(g.FI, g.Thorough)
-	a := intact(f, g.Op)
-	b := intact(makeFont(g.FI, g.Thorough), g.Op)
-	if len(a) != len(b) {
-		vio.Fatal(fmt.Errorf("%s of %s is not reproducible: %d vs %d bytes", g.Op, g.Name, len(a), len(b)))
+	var a []byte
+	if isRead(g.Op) {
+		a = buildFile(g)
+	} else {
+		a = intact(makeFont(g.FI, g.Thorough), g.Op)
+		b := intact(makeFont(g.FI, g.Thorough), g.Op)
+		if len(a) != len(b) {
+			vio.Fatal(fmt.Errorf("%s of %s is not reproducible: %d vs %d bytes", g.Op, g.Name, len(a), len(b)))
+		}
 	}
 	g.Total = len(a)
 	if isRead(g.Op) {
@@ -379,7 +522,7 @@ func measure(g *Group) []byte {
 		}
 		g.DataEnd = d.DataEnd()
 		if _, err := sfnt.Read(bytes.NewReader(a)); err != nil {
-			vio.Fatal(fmt.Errorf("corpus font %s cannot be read back: %v", g.Name, err))
+			vio.Fatal(fmt.Errorf("corpus font %s (%s) cannot be read back: %v", g.Name, g.Variant, err))
 		}
 	}
 	return a
@@ -388,16 +531,16 @@ func measure(g *Group) []byte {
 const blockSize = 256
 
 type block struct {
-	g      *Group
-	file   []byte
-	lo, hi int // k in lo..hi-1
-	out    []byte
-	lines  int
+	g     *Group
+	file  []byte
+	ks    []int
+	out   []byte
+	lines int
 }
 
 func runBlock(b *block, f *sfnt.Font) {
 	var evs []ev
-	for k := b.lo; k < b.hi; k++ {
+	for _, k := range b.ks {
 		for _, det := range []bool{false, true} {
 			if det && !detailed(b.g, k) {
 				continue
@@ -427,12 +570,13 @@ func all(dir string) {
 	var blocks []*block
 	for _, g := range gs {
 		file := measure(g)
-		for lo := 0; lo <= g.Total; lo += blockSize {
+		ks := faultPoints(g, file)
+		for lo := 0; lo < len(ks); lo += blockSize {
 			hi := lo + blockSize
-			if hi > g.Total+1 {
-				hi = g.Total + 1
+			if hi > len(ks) {
+				hi = len(ks)
 			}
-			blocks = append(blocks, &block{g: g, file: file, lo: lo, hi: hi})
+			blocks = append(blocks, &block{g: g, file: file, ks: ks[lo:hi]})
 		}
 	}
 	// workers: each builds its own font values (nothing is shared between goroutines)
@@ -453,7 +597,7 @@ func all(dir string) {
 			cache := map[int]*sfnt.Font{}
 			for b := range next {
 				f := cache[b.g.FI]
-				if f == nil {
+				if f == nil && !isRead(b.g.Op) {
 					f = makeFont(b.g.FI, b.g.Thorough)
 					cache[b.g.FI] = f
 				}
@@ -492,7 +636,7 @@ func all(dir string) {
 		}
 		cur.Write(b.out)
 		lines += b.lines
-		runs += b.hi - b.lo
+		runs += len(b.ks)
 	}
 	cur.Close()
 	gj := vio.NewOut(filepath.Join(dir, "groups.ndjson"))
@@ -514,7 +658,10 @@ func one(casePath, outPath string) {
 	}
 	g := c.Group
 	file := measure(&g)
-	f := makeFont(g.FI, g.Thorough)
+	var f *sfnt.Font
+	if !isRead(g.Op) {
+		f = makeFont(g.FI, g.Thorough)
+	}
 	var evs []ev
 	evs = append(evs, resetEvent(&g))
 	for _, det := range []bool{false, true} {
